@@ -424,6 +424,132 @@ func c08RunTyped(ps []typedParam, private ...bool) explore.Result {
 	return res
 }
 
+// c08RunStringRows: the handler hands over its int4 values as Go strings (fine for text-format clients). With
+// binary result codes the row is refused or encoded in binary: the DataRow is in the format Describe announced.
+func c08RunStringRows(rf []int16) explore.Result {
+	var res explore.Result
+	res.Outcome = "no-null"
+	res.Key = fmt.Sprint("string-rows", rf)
+	parse := func(ctx context.Context, q string) (wire.PreparedStatements, error) {
+		return wire.Prepared(wire.NewStatement(func(ctx context.Context, w wire.DataWriter, params []wire.Parameter) error {
+			if err := w.Row([]any{"12345", "7"}); err != nil {
+				return err
+			}
+			return w.Complete("SELECT 1")
+		}, wire.WithColumns(c08Columns(2)))), nil
+	}
+	one, err := harness.StartOne(parse)
+	if err != nil {
+		res.Engine = err.Error()
+		return res
+	}
+	defer one.Stop()
+	one.Step(pgproto.Startup("user", "u"))
+	out, _ := one.Step(pgproto.Cat(pgproto.Parse("", "q"), pgproto.Bind("", "", nil, nil, rf), pgproto.Describe('P', ""), pgproto.Execute("", 0), pgproto.Sync()))
+	ms, perr := pgproto.ParseBackend(out)
+	if perr != nil {
+		res.Fail("reply-grammar", perr.Error())
+		return res
+	}
+	var t, d *pgproto.BMsg
+	for i := range ms {
+		switch ms[i].Type {
+		case 'T':
+			t = &ms[i]
+		case 'D':
+			d = &ms[i]
+		}
+	}
+	if t == nil {
+		res.Fail("reply-sequence", "no RowDescription: "+pgproto.Kinds(ms))
+		return res
+	}
+	if d == nil {
+		return res // the row was refused (ErrorResponse): nothing was delivered in a wrong format
+	}
+	for i, want := range []int64{12345, 7} {
+		if i >= len(d.Row) {
+			break
+		}
+		var got int64 = -1
+		switch t.Cols[i].Format {
+		case 0:
+			got, _ = strconv.ParseInt(string(d.Row[i]), 10, 64)
+		case 1:
+			if len(d.Row[i]) == 4 {
+				got = int64(int32(binary.BigEndian.Uint32(d.Row[i])))
+			}
+		}
+		if got != want {
+			res.Fail("result-format-used", fmt.Sprintf("result codes %v: column %d was announced in format %d but its field % x does not decode to %d in that format", rf, i, t.Cols[i].Format, d.Row[i], want))
+		}
+	}
+	return res
+}
+
+// c08RunTwoConns: two connections of one server use the same portal names (the unnamed one and "p"): Bind on A, Bind
+// on B, Execute on A - A's statement receives A's parameters and formats.
+func c08RunTwoConns(portal string, order string) explore.Result {
+	var res explore.Result
+	res.Outcome = "two-portals"
+	res.Key = fmt.Sprint("two-conns", portal, order)
+	got := map[string][]string{}
+	parse := func(ctx context.Context, q string) (wire.PreparedStatements, error) {
+		who := string(wire.ClientParameters(ctx)["user"])
+		return wire.Prepared(wire.NewStatement(func(ctx context.Context, w wire.DataWriter, params []wire.Parameter) error {
+			var s []string
+			for _, p := range params {
+				s = append(s, fmt.Sprintf("%s/%d", p.Value(), p.Format()))
+			}
+			got[who] = append(got[who], strings.Join(s, ","))
+			if err := w.Row([]any{int32(258), int32(259)}); err != nil {
+				return err
+			}
+			return w.Complete("SELECT 1")
+		}, wire.WithColumns(c08Columns(2)))), nil
+	}
+	srv, err := harness.NewServer(parse)
+	if err != nil {
+		res.Engine = err.Error()
+		return res
+	}
+	defer srv.Stop()
+	conns := map[byte]*harness.Conn{}
+	binds := map[byte][]byte{
+		'A': pgproto.Bind(portal, "s", []int16{0}, [][]byte{[]byte("alpha")}, []int16{0}),
+		'B': pgproto.Bind(portal, "s", []int16{1}, [][]byte{[]byte("bravo"), []byte("charlie")}, []int16{1}),
+	}
+	want := map[byte]string{'A': "alpha/0", 'B': "bravo/1,charlie/1"}
+	wantFmt := map[byte]int16{'A': 0, 'B': 1}
+	for _, c := range []byte{'A', 'B'} {
+		conns[c] = srv.Connect()
+		conns[c].Step(pgproto.Startup("user", string(c)))
+		conns[c].Step(pgproto.Cat(pgproto.Parse("s", "q"), pgproto.Sync()))
+	}
+	// order is a string over {a,b,A,B}: lower case = Bind on that connection, upper case = Describe + Execute + Sync
+	for i := 0; i < len(order); i++ {
+		c := order[i] &^ 0x20
+		if order[i] >= 'a' {
+			conns[c].Step(binds[c])
+			continue
+		}
+		before := len(got[string(c)])
+		out, _ := conns[c].Step(pgproto.Cat(pgproto.Describe('P', portal), pgproto.Execute(portal, 0), pgproto.Sync()))
+		ms, _ := pgproto.ParseBackend(out)
+		what := fmt.Sprintf("portal %q, steps %q (lower case: Bind on that connection, upper case: Describe + Execute), connection %c", portal, order, c)
+		if g := got[string(c)][before:]; len(g) != 1 || g[0] != want[c] {
+			res.Fail("parameter-values", fmt.Sprintf("%s: its statement received %v, it had bound %q (reply %q)", what, g, want[c], pgproto.Kinds(ms)))
+			break
+		}
+		if len(ms) > 0 && ms[0].Type == 'T' && ms[0].Cols[0].Format != wantFmt[c] {
+			res.Fail("result-format-announced", fmt.Sprintf("%s: Describe announces format %d, it had bound result format %d", what, ms[0].Cols[0].Format, wantFmt[c]))
+			break
+		}
+	}
+	res.Trans = []string{"two connections|same portal name|own parameters"}
+	return res
+}
+
 // c08RunPrespecified: the client pre-declares parameter types in its Parse message. The statement's DECLARED types
 // are the handler's (it hands the library one list which it reuses for every statement): that list is never
 // written to, and a later statement — on this or on another connection — is described with exactly that list.
@@ -736,6 +862,20 @@ func c08Enumerate(tier string, emit explore.Emit) {
 					}
 				}
 			}
+		}
+	}
+	for _, rf := range [][]int16{nil, {0}, {1}, {0, 1}, {1, 0}, {1, 1}} {
+		rf := rf
+		emit(explore.Case{Family: "string-rows", Size: 3, Desc: func() any {
+			return map[string]any{"handler_row": []string{"12345", "7"}, "columns": "int4, int4", "result_codes": rf}
+		},
+			Run: func() explore.Result { return c08RunStringRows(rf) }})
+	}
+	for _, portal := range []string{"", "p"} {
+		for _, order := range []string{"abAB", "abBA", "baAB", "aAbB", "abAbB", "abABAB"} {
+			portal, order := portal, order
+			emit(explore.Case{Family: "two-connections", Size: 6, Desc: func() any { return map[string]any{"portal": portal, "steps": order} },
+				Run: func() explore.Result { return c08RunTwoConns(portal, order) }})
 		}
 	}
 	// types pre-declared by the client in Parse
